@@ -105,6 +105,20 @@ CHECKS = {
              "writes taken from a recording transport; Thrift decoding, brokers, net/http, nats.go, go-stomp not modelled; NATS max_payload >= 1 MiB assumed.",
         technique="Coq model + induction over write sequences; trace-validation judge; boundary-directed generation through real transports",
         design="5/C12"),
+    "C14": dict(
+        text="10 Coq theorems (no axioms): for every service table, handler, error text and request frame whose headers/envelope decode, the modelled "
+             "generated processor writes exactly one reply frame (or none for a successful oneway) that an independent reader classifies as "
+             "REPLY/EXCEPTION of the tabled kind with the request's op id; at most one whole frame for any input; for every mutex-respecting "
+             "schedule of any number of goroutines on one shared framed output the output is a permutation of whole own replies with nothing "
+             "pending, and the mutex never wedges; FSimpleServer connection output = concatenation of each request's own reply; NATS/HTTP replies "
+             "are a function of the message alone; the lock discipline of processor.go is decided on data REGENERATED from source each build. "
+             "Tie: real generated processors (lab) driven through Process, N goroutines on one shared output, FSimpleServer, FNatsServer (embedded "
+             "broker), HTTP handler; replies captured byte for byte and replayed by the Coq judge on the same definitions.",
+        note="Trusted: Coq kernel + vm_compute; translator/locksites.go; lab/harness as test equipment. Assumed: replies fit the buffer (C12), Go error texts and the "
+             "result struct's serialisation are inputs, binary protocol only, handlers neither panic nor block; a frame with undecodable headers ends its "
+             "FSimpleServer connection (kept behaviour).",
+        technique="Coq executable model + interleaving invariants (linearisation by lock order) + regenerated lock-site table + trace-validation judge + independent oracle",
+        design="5/C14"),
     "C15": dict(
         text="17 Coq theorems over an interleaving small-step model of the adapter transport lifecycle, the framing layer and the monitor runner, "
              "for all histories, schedules and policies: exactly one cause per connection generation; every failure point closes the transport with "
